@@ -67,7 +67,9 @@ MANIFEST = {
             "most as many claims as there are pending entries not later than it – due_task_claimed_within) plus tables regenerated from the source "
             "on every run (start-up guard, event -> follow-up task, task -> possible results, queue_start_tasks) with decide-checked "
             "theorems (object change -> repo sync, request -> parent sync, activation/removal -> revocation, publication -> RRDP update, "
-            "recurring handlers only ever follow themselves up); the model is tied to the code by lock-step differential execution on both storage back-ends and by evaluating "
+            "recurring handlers only ever follow themselves up); followup_never_lost: for any number of request threads and every interleaving "
+            "with the scheduler, change-then-schedule with a guaranteed method leaves nothing staged at rest – with counter-models for "
+            "schedule-before-change and schedule_missing, and source_publish_is_change_first_guaranteed tying both to the regenerated tables); the model is tied to the code by lock-step differential execution on both storage back-ends and by evaluating "
             "the theorem predicates on the implementation's own trace",
     "note": "Kernel-checked theorems are about the model; the tie is seeded differential execution plus a syn translator for the start-up "
             "guard. list_keys order is modelled as arbitrary (non-deterministic model). The wall clock is replaced by the injected queue "
